@@ -3,7 +3,7 @@
     stack touches only what the checker's counters say, on success AND at every failure point,
     and leaves the fill stack, the fill boundaries and the call depth as they were. *)
 From Coq Require Import List ZArith NArith Bool Lia PeanoNat.
-From UV Require Import Model.Node Model.Sig Model.Exec Proofs.SimBase Proofs.SigMono.
+From UV Require Import Model.Node Model.Sig Model.Exec Proofs.SimBase Proofs.SigMono Proofs.SigShift Proofs.SigWf.
 Import ListNotations.
 
 Definition hid (s : rt) := (fills s, fbs s, depth s).
@@ -25,6 +25,8 @@ Definition sig_fits (inferred stored : sig) : Prop :=
             sua stored = sua inferred /\ suo stored = suo inferred.
 Definition stored_ok (sg : sig) (f : node) : Prop :=
   exists e0, vnode 0 f (vs0, vs0) = Some e0 /\ sig_fits (env_sig e0) sg.
+Definition stored_exact (sg : sig) (f : node) : Prop :=
+  exists e0, vnode 0 f (vs0, vs0) = Some e0 /\ env_sig e0 = sg.
 
 Lemma fits_le e e' init uinit : le_env e e' -> fits e' init uinit -> fits e init uinit.
 Proof. intros [] []; split; lia. Qed.
@@ -52,10 +54,23 @@ Section Sound.
   Notation exec := (Exec.exec pknown psem arrsem unpacksem fmtsem asm).
 
   (** modifiers that the interpreter model runs but whose case of the frame theorem is not proved yet *)
-  Definition unproved (mk : modk) : bool := match mk with MBy => true | _ => false end.
-  (** modifiers for which the checker only looks at the stack part of the operands' stored signatures *)
+  Definition unproved (mk : modk) : bool := false.
+  (** modifiers whose operands must leave the under stack alone: the checker only looks at the
+      stack part of their stored signatures, or they run the operand repeatedly *)
   Definition ignores_under (mk : modk) : bool :=
-    match mk with MWith | MOff | MAbove | MBelow | MFork | MBracket | MTry | MDipN _ => true | _ => false end.
+    match mk with
+    | MWith | MOff | MAbove | MBelow | MFork | MBracket | MTry | MDipN _
+    | MReduce | MScan | MFold | MRows | MEach | MInventory | MTable | MTuples | MGroup | MPartition
+    | MSpawn | MPool => true
+    | _ => false end.
+  (** modifiers checked in context whose run-time form uses the stored signature *)
+  Definition needs_exact (mk : modk) : bool :=
+    match mk with MBy | MRows | MEach | MInventory => true | _ => false end.
+  Definition is_iter (mk : modk) : bool :=
+    match mk with
+    | MReduce | MScan | MFold | MRows | MEach | MInventory | MTable | MTuples | MGroup | MPartition
+    | MSpawn | MPool => true
+    | _ => false end.
 
   (** the tree invariant the compiler is expected to establish (validated on real compiler
       output by the V tie): every stored operand signature is the checker's *)
@@ -65,6 +80,7 @@ Section Sound.
     | Mod mk args =>
         unproved mk = false /\
         (ignores_under mk = true -> Forall (fun a : sig * node => sua (fst a) = 0 /\ suo (fst a) = 0) args) /\
+        (needs_exact mk = true -> Forall (fun a : sig * node => stored_exact (fst a) (snd a)) args) /\
         (fix go (l : list (sig * node)) : Prop :=
            match l with [] => True | a :: t => tree_ok (snd a) /\ stored_ok (fst a) (snd a) /\ go t end) args
     | Call f sg => match nth_error asm f with Some body => stored_ok sg body | None => True end
@@ -246,13 +262,217 @@ Section Sound.
     - rewrite (handle_sig_noU sg sk un _ _ U1 U2 S2). split; auto.
   Qed.
 
+  (** ---- iterating modifiers ---- *)
+  Lemma simE_junk {A} v (init stk j : list A) : sim v init stk -> simE v init (j ++ stk).
+  Proof. intros (cur & -> & _). exists (j ++ cur). rewrite app_assoc. reflexivity. Qed.
+
+  Definition body_frames (body : rt -> res) (fa fo : nat) (B U : list sval) (H : list (list sval) * list nat * nat) : Prop :=
+    forall s0 l, stk s0 = l ++ B -> length l = fa -> und s0 = U -> hid s0 = H ->
+    match body s0 with
+    | Ok s' => exists outs, stk s' = outs ++ B /\ length outs = fo /\ und s' = U /\ hid s' = H
+    | Err _ s' => exists j uj, stk s' = j ++ B /\ und s' = uj ++ U /\ hid s' = H
+    | OOF | Unk => True end.
+
+  Lemma iter_loop_frame body argsof fa fo B U H :
+    body_frames body fa fo B U H ->
+    forall k i cur acc, stk cur = B -> und cur = U -> hid cur = H ->
+    match fst (iter_loop body argsof fa fo k i cur acc) with
+    | Ok s' => stk s' = B /\ und s' = U /\ hid s' = H
+    | Err _ s' => exists j uj, stk s' = j ++ B /\ und s' = uj ++ U /\ hid s' = H
+    | OOF | Unk => True end.
+  Proof.
+    intros Hb. induction k as [|k IHk]; intros i cur acc E1 E2 E3; cbn [iter_loop fst].
+    - auto.
+    - destruct (argsof i acc) as [l|]; cbn [fst].
+      + destruct (Nat.eqb_spec (length l) fa) as [El|]; cbn [negb fst]; [|exact I].
+        specialize (Hb (set_stk cur (l ++ stk cur)) l).
+        cbn [set_stk stk und] in Hb. rewrite E1 in Hb. specialize (Hb eq_refl El E2 E3).
+        rewrite E1.
+        destruct (body (set_stk cur (l ++ B))) as [s2|c s2| |]; cbn [fst]; auto.
+        destruct Hb as (outs & O1 & O2 & O3 & O4).
+        unfold need. destruct (fo <=? length (stk s2)) eqn:En; cbn [negb fst].
+        * apply IHk; cbn [set_stk stk und]; auto.
+          rewrite O1, skipn_app, <- O2, skipn_all, Nat.sub_diag. reflexivity.
+        * exists outs, []. auto.
+      + exists [], []. auto.
+  Qed.
+
+  Lemma iter_exec_post body tag na no fa fo sk un init uinit s :
+    body_frames body fa fo (skipn na (stk s)) (und s) (hid s) ->
+    sim sk init (stk s) -> sim un uinit (und s) ->
+    m (vao na no sk) <= length init -> m un <= length uinit ->
+    post (vao na no sk, un) init uinit s (iter_exec pknown psem body tag na no fa fo s).
+  Proof.
+    intros Hb S1 S2 F1 F2. unfold iter_exec, need.
+    destruct (na <=? length (stk s)) eqn:En; cbn [negb].
+    2:{ apply post_err; auto. split; cbn [fst snd].
+        - eapply simE_keep; eauto. vsimp. lia.
+        - apply sim_simE; auto. }
+    destruct (pknown ITER_N ([SInt tag; SInt (Z.of_nat fa); SInt (Z.of_nat fo)] ++ firstn na (stk s))); cbn [negb]; [|exact I].
+    destruct (psem ITER_N (fillctx s) ([SInt tag; SInt (Z.of_nat fa); SInt (Z.of_nat fo)] ++ firstn na (stk s))) as [[|[n|] [|]]|]; try exact I.
+    - set (lp := iter_loop body _ fa fo (Z.to_nat n) 0%Z (set_stk s (skipn na (stk s))) []).
+      pose proof (iter_loop_frame body
+        (fun i acc => psem ITER_ARG (fillctx s) ([SInt tag; SInt (Z.of_nat fa); SInt (Z.of_nat fo)] ++ SInt i :: SInt (Z.of_nat na) :: firstn na (stk s) ++ acc))
+        fa fo _ _ _ Hb (Z.to_nat n) 0%Z (set_stk s (skipn na (stk s))) [] eq_refl eq_refl eq_refl) as Hl.
+      fold lp in Hl. destruct lp as [r acc]. cbn [fst] in Hl.
+      destruct r as [s2|c s2| |]; auto.
+      + destruct Hl as (L1 & L2 & L3).
+        destruct (psem ITER_OUT (fillctx s) _) as [outs|].
+        * destruct (Nat.eqb_spec (length outs) no); [|exact I].
+          apply post_ok; auto. split; cbn [fst snd set_stk stk und].
+          -- rewrite L1. apply sim_ao; auto.
+          -- rewrite L2. auto.
+        * apply post_err; auto. split; cbn [fst snd].
+          -- rewrite L1. apply simE_ao_pop; auto.
+          -- rewrite L2. apply sim_simE; auto.
+      + destruct Hl as (j & uj & L1 & L2 & L3).
+        apply post_err; auto. split; cbn [fst snd].
+        -- eapply frame_simE; eauto.
+        -- rewrite L2. apply simE_junk; auto.
+    - apply post_err; auto. split; cbn [fst snd set_stk stk und].
+      + apply simE_ao_pop; auto.
+      + apply sim_simE; auto.
+  Qed.
+
+  Lemma body_frames_of_framed fuel sg f (B U : list sval) H :
+    framed_at fuel sg f -> sua sg = 0 -> suo sg = 0 ->
+    body_frames (exec fuel f) (sa sg) (so sg) B U H.
+  Proof.
+    intros Fr U1 U2 s0 l E1 El E2 E3.
+    specialize (Fr s0). rewrite E1, app_length, U1 in Fr. specialize (Fr ltac:(lia) ltac:(lia)).
+    destruct (exec fuel f s0) as [s'|c s'| |]; auto.
+    - destruct Fr as (outs & uouts & A1 & A2 & A3 & A4 & A5).
+      exists outs. rewrite skipn_app, <- El, skipn_all, Nat.sub_diag in A1. simpl in A1.
+      rewrite U2 in A4. destruct uouts; [|discriminate]. simpl in A3.
+      repeat split; auto; congruence.
+    - destruct Fr as (j & uj & A1 & A2 & A3).
+      exists j, uj. rewrite skipn_app, <- El, skipn_all, Nat.sub_diag in A1. simpl in A1, A2.
+      repeat split; auto; congruence.
+  Qed.
+
+  (** every iterating modifier of the model, from the frame property of its operand *)
+  Lemma iter_mod_post fuel : P fuel -> asm_ok ->
+    forall mk sg f d e e' init uinit s, is_iter mk = true ->
+    tree_ok (Mod mk [(sg, f)]) -> vnode d (Mod mk [(sg, f)]) e = Some e' ->
+    fits e' init uinit -> sim2 e init uinit s ->
+    post e' init uinit s (exec (S fuel) (Mod mk [(sg, f)]) s).
+  Proof.
+    intros HP HA mk sg f d [sk un] e' init uinit s Hi Ht Hv [F1 F2] [S1 S2].
+    cbn [tree_ok fst snd] in Ht. destruct Ht as (_ & HnoU & Hex & Tf & Of & _).
+    assert (Hig : ignores_under mk = true) by (destruct mk; try discriminate Hi; reflexivity).
+    specialize (HnoU Hig). inversion HnoU as [|? ? [U1 U2] _]; subst; cbn [fst] in *.
+    pose proof (framed_of_P _ _ _ HP HA Tf Of) as Fr.
+    pose proof (body_frames_of_framed fuel sg f (skipn (sa sg) (stk s)) (und s) (hid s) Fr U1 U2) as Hb0.
+    assert (Hctx : needs_exact mk = true -> vnode (S d) f (sk, un) = Some e' -> e' = (vao (sa sg) (so sg) sk, un)).
+    { intros Hn Hs. specialize (Hex Hn). inversion Hex as [|? ? (e0 & V0 & Es) _]; subst; cbn [fst snd] in *.
+      rewrite (vnode_ctx f (S d) (sk, un) e' e0) by
+        (auto; split; cbn [fst snd]; eapply sim_nonneg; eauto).
+      rewrite Es. eapply handle_sig_noU; eauto. }
+    cbn [vnode] in Hv. destruct (MAX_NODE_DEPTH <? d); [discriminate|].
+    destruct mk; try discriminate Hi; cbn [map fst snd opt_bind] in Hv; cbn [Exec.exec iter_ao mk_tag].
+    - (* Reduce *) inversion Hv; subst; clear Hv. cbn [handle_ao fst snd] in *.
+      apply iter_exec_post; auto; try (eapply body_frames_of_framed; eauto).
+    - (* Scan *) inversion Hv; subst; clear Hv. cbn [handle_ao fst snd] in *.
+      apply iter_exec_post; auto; try (eapply body_frames_of_framed; eauto).
+    - (* Fold *)
+      destruct (Nat.eqb (sa sg) 0 && Nat.eqb (so sg) 0); [exact I|].
+      destruct (sa sg <=? so sg); inversion Hv; subst; clear Hv.
+      + cbn [handle_ao fst snd] in *. apply iter_exec_post; auto; try (eapply body_frames_of_framed; eauto).
+      + rewrite (handle_sig_noU sg sk un _ _ U1 U2 S2) in *. cbn [fst snd] in *.
+        apply iter_exec_post; auto; try (eapply body_frames_of_framed; eauto).
+    - (* Rows *) rewrite (Hctx eq_refl Hv) in *. cbn [fst snd] in *.
+      apply iter_exec_post; auto.
+    - (* Each *) rewrite (Hctx eq_refl Hv) in *. cbn [fst snd] in *.
+      apply iter_exec_post; auto.
+    - (* Inventory *) rewrite (Hctx eq_refl Hv) in *. cbn [fst snd] in *.
+      apply iter_exec_post; auto.
+    - (* Table *) inversion Hv; subst; clear Hv.
+      rewrite (handle_sig_noU sg sk un _ _ U1 U2 S2) in *. cbn [fst snd] in *.
+      apply iter_exec_post; auto.
+    - (* Tuples *) inversion Hv; subst; clear Hv.
+      rewrite (handle_sig_noU sg sk un _ _ U1 U2 S2) in *. cbn [fst snd] in *.
+      apply iter_exec_post; auto.
+    - (* Group *) inversion Hv; subst; clear Hv. cbn [handle_ao fst snd] in *.
+      apply iter_exec_post; auto; try (eapply body_frames_of_framed; eauto).
+    - (* Partition *) inversion Hv; subst; clear Hv. cbn [handle_ao fst snd] in *.
+      apply iter_exec_post; auto; try (eapply body_frames_of_framed; eauto).
+    - (* Spawn *) inversion Hv; subst; clear Hv. cbn [handle_ao fst snd] in *.
+      apply iter_exec_post; auto. intros ? ? ? ? ? ?. exact I.
+    - (* Pool *) inversion Hv; subst; clear Hv. cbn [handle_ao fst snd] in *.
+      apply iter_exec_post; auto. intros ? ? ? ? ? ?. exact I.
+  Qed.
+
+  (** ---- by ---- *)
+  Lemma by_split (l : list sval) a x :
+    nth_error l (Nat.max a 1 - 1) = Some x -> Nat.max a 1 <= length l ->
+    skipn a (firstn (Nat.max a 1) l ++ x :: skipn (Nat.max a 1) l) = x :: skipn a l.
+  Proof.
+    destruct a as [|a]; intros Hn Hl.
+    - cbn [Nat.max Nat.sub] in *. destruct l as [|y t]; [simpl in Hl; lia|].
+      simpl in Hn. inversion Hn; subst. reflexivity.
+    - replace (Nat.max (S a) 1) with (S a) in * by lia.
+      rewrite skipn_app, firstn_length, Nat.min_l by lia.
+      rewrite skipn_all2 by (rewrite firstn_length; lia).
+      rewrite Nat.sub_diag. reflexivity.
+  Qed.
+
+  Lemma by_post fuel : P fuel -> asm_ok ->
+    forall sg f d e e' init uinit s,
+    tree_ok (Mod MBy [(sg, f)]) -> vnode d (Mod MBy [(sg, f)]) e = Some e' ->
+    fits e' init uinit -> sim2 e init uinit s ->
+    post e' init uinit s (exec (S fuel) (Mod MBy [(sg, f)]) s).
+  Proof.
+    intros HP HA sg f d [sk un] e' init uinit s Ht Hv [F1 F2] [S1 S2].
+    cbn [tree_ok fst snd] in Ht. destruct Ht as (_ & _ & Hex & Tf & Of & _).
+    specialize (Hex eq_refl). inversion Hex as [|? ? (e0 & V0 & Es) _]; subst; cbn [fst snd] in *.
+    pose proof (framed_of_P _ _ _ HP HA Tf Of) as Fr.
+    cbn [vnode] in Hv. destruct (MAX_NODE_DEPTH <? d); [discriminate|].
+    cbn [map fst snd opt_bind] in Hv.
+    destruct (vnode (S d) f (sk, un)) as [e1|] eqn:E1; cbn [opt_bind] in Hv; [|discriminate].
+    inversion Hv; subst; clear Hv.
+    rewrite (vnode_ctx f (S d) (sk, un) e1 e0) in * by
+      (auto; split; cbn [fst snd]; eapply sim_nonneg; eauto).
+    set (sg := env_sig e0) in *. clearbody sg. clear E1 V0.
+    cbn [handle_sig epush fst snd] in *. rewrite vpush_vao in *.
+    cbn [Exec.exec]. unfold need.
+    assert (Eerr : post (vao (sa sg) (so sg + 1) sk, vao (sua sg) (suo sg) un) init uinit s (Err false s)).
+    { apply post_err; auto. split; cbn [fst snd]; eapply simE_keep; eauto; vsimp; lia. }
+    destruct (Nat.max (sa sg) 1 <=? length (stk s)) eqn:En; cbn [negb]; [|exact Eerr].
+    apply Nat.leb_le in En.
+    destruct (nth_error (stk s) (Nat.max (sa sg) 1 - 1)) as [x|] eqn:Ex; [|exact Eerr].
+    set (s0 := set_stk s _).
+    assert (A2 : sua sg <= length (und s)) by (eapply sim_enough; eauto; vsimp; vsimp; lia).
+    specialize (Fr s0). cbn [s0 set_stk stk und] in Fr.
+    rewrite (by_split _ _ _ Ex En) in Fr.
+    assert (A1 : sa sg <= length (firstn (Nat.max (sa sg) 1) (stk s) ++ x :: skipn (Nat.max (sa sg) 1) (stk s))).
+    { rewrite app_length, firstn_length. simpl. lia. }
+    specialize (Fr A1 A2).
+    destruct (exec fuel f s0) as [s'|c s'| |]; auto.
+    - destruct Fr as (outs & uouts & B1 & B2 & B3 & B4 & B5).
+      apply post_ok; auto. split; cbn [epush handle_sig fst snd]; rewrite ?vpush_vao.
+      + eapply (frame_sim (sa sg) (so sg + 1) sk init (stk s) (stk s') (outs ++ [x])); eauto.
+        * rewrite B1, <- app_assoc. reflexivity.
+        * rewrite app_length. simpl. lia.
+      + eapply frame_sim; eauto.
+    - destruct Fr as (j & uj & B1 & B2 & B3).
+      apply post_err; auto. split; cbn [epush handle_sig fst snd]; rewrite ?vpush_vao.
+      + eapply (frame_simE (sa sg) (so sg + 1) sk init (stk s) (stk s') (j ++ [x])); eauto.
+        rewrite B1, <- app_assoc. reflexivity.
+      + eapply frame_simE; eauto.
+  Qed.
+
   Ltac senv := cbn [handle_ao handle_sig epop epush fst snd set_stk set_und set_su stk und fills fbs depth] in *.
 
   Theorem P_all : asm_ok -> forall fuel, P fuel.
   Proof.
     intros HA. induction fuel as [|fuel IH]; intros n d e e' init uinit s Ht Hv F S.
     - exact I.
-    - destruct n; cbn [vnode] in Hv; destruct (MAX_NODE_DEPTH <? d); try discriminate; cbn [Exec.exec].
+    - destruct (match n with Mod mk [_] => is_iter mk || match mk with MBy => true | _ => false end | _ => false end) eqn:Ei.
+      { destruct n; try discriminate Ei. destruct args as [|[sg f] [|? ?]]; try discriminate Ei.
+        destruct (is_iter m) eqn:Ei2.
+        - eapply iter_mod_post; eauto.
+        - destruct m; try discriminate Ei; try discriminate Ei2. eapply by_post; eauto. }
+      destruct n; cbn [vnode] in Hv; destruct (MAX_NODE_DEPTH <? d); try discriminate; cbn [Exec.exec].
       + (* Push *) inversion Hv; subst; clear Hv. apply post_ok; auto.
         destruct S as [S1 S2]. split; auto. destruct e as [sk un]. simpl in *.
         apply (sim_push [v]); auto.
@@ -275,7 +495,8 @@ Section Sound.
         destruct e as [sk un]. destruct S as [S1 S2]. destruct F as [F1 F2].
         destruct m; destruct args as [|[sg f] [|[sg2 g] [|? ?]]]; try exact I;
           cbn [vnode map fst snd opt_bind] in Hv; try discriminate;
-          cbn [tree_ok fst snd] in Ht; destruct Ht as (Hup & HnoU & Ht); try discriminate Hup; cbn [ignores_under] in HnoU.
+          try discriminate Ei;
+          cbn [tree_ok fst snd] in Ht; destruct Ht as (Hup & HnoU & Hex & Ht); cbn [ignores_under] in HnoU.
         * (* Dip *)
           destruct Ht as (Tf & Of & _).
           destruct (vnode (S d) f (epop 1 (sk, un))) as [e1|] eqn:E1; cbn [opt_bind] in Hv; [|discriminate].
